@@ -4,6 +4,7 @@ package worker
 
 import (
 	"fmt"
+	"sort"
 	"strings"
 	"time"
 
@@ -28,7 +29,9 @@ type Recv struct {
 
 type Route struct {
 	Receiver string
-	Matchers []string // e.g. `a="x"`, `b=~"x|y"`
+	Matchers []string          // e.g. `a="x"`, `b=~"x|y"`
+	Match    map[string]string // deprecated match: (equality)
+	MatchRE  map[string]string // deprecated match_re: (anchored regex)
 	Continue bool
 	GroupBy  []string // nil = inherit
 	GW, GI   time.Duration
@@ -57,6 +60,9 @@ type Conf struct {
 	Inhibit   []Inhibit
 	Templates []string
 	Comment   string
+	// BadTracing adds a tracing section that config.Load accepts and the tracing manager cannot apply (the CA file of
+	// its TLS configuration does not exist): the LAST fallible step of a reload.
+	BadTracing bool
 }
 
 func d(x time.Duration) string {
@@ -73,6 +79,22 @@ func (rt Route) yaml(sb *strings.Builder, ind string, root bool) {
 		w("matchers:")
 		for _, m := range rt.Matchers {
 			w("- '%s'", m)
+		}
+	}
+	for _, leg := range []struct {
+		key string
+		m   map[string]string
+	}{{"match", rt.Match}, {"match_re", rt.MatchRE}} {
+		if len(leg.m) > 0 {
+			w("%s:", leg.key)
+			names := make([]string, 0, len(leg.m))
+			for n := range leg.m {
+				names = append(names, n)
+			}
+			sort.Strings(names)
+			for _, n := range names {
+				w("  %s: '%s'", n, leg.m[n])
+			}
 		}
 	}
 	if rt.Continue {
@@ -120,6 +142,9 @@ func (c Conf) YAML(sink *Sink) string {
 		for _, t := range c.Templates {
 			sb.WriteString("- '" + t + "'\n")
 		}
+	}
+	if c.BadTracing {
+		sb.WriteString("tracing:\n  endpoint: 127.0.0.1:1\n  client_type: grpc\n  tls_config:\n    ca_file: /nonexistent/appsys-tracing-ca.pem\n")
 	}
 	sb.WriteString("route:\n")
 	c.Root.yaml(&sb, "  ", true)
